@@ -202,6 +202,8 @@ type ProxyOpts struct {
 	TLSHandshakeTimeout time.Duration
 	IdleTimeout         time.Duration // applied to HTTPServer and HTTP2Server
 	NoH2IdleTimeout     bool          // leave HTTP2Server.IdleTimeout at zero (what defaultProxyServer did before the fix)
+	ReadTimeout         time.Duration // HTTPServer.ReadTimeout / WriteTimeout (the binary sets both, 60 s by default)
+	WriteTimeout        time.Duration
 	TLSConfig           *tls.Config
 	Handler             http.Handler // replaces the reverse proxy handler altogether
 	WrapHandler         func(http.Handler) http.Handler
@@ -346,6 +348,7 @@ func StartProxy(o ProxyOpts) *Proxy {
 		p.Srv.HTTP2Server.IdleTimeout = o.IdleTimeout
 	}
 	p.Srv.HTTPServer.ConnState = o.ConnState
+	p.Srv.HTTPServer.ReadTimeout, p.Srv.HTTPServer.WriteTimeout = o.ReadTimeout, o.WriteTimeout
 	p.Registry = o.Registry
 	if p.Registry != nil {
 		p.Srv.MetricsRegistry = p.Registry
